@@ -2,6 +2,7 @@ package checks
 
 import (
 	"fmt"
+	"strings"
 
 	"verif/env"
 	"verif/ref"
@@ -56,8 +57,28 @@ func queueAlphabet(cfg histCfg, w *World) []histAnswer {
 			}
 		}}, Class: clsFinal}
 	}
+	// the BMC refuses the command with a permanent error code, and that reply is
+	// duplicated / arrives late: the stray copy carries a non-normal code
+	refused := func(name string, late, dup bool) histAnswer {
+		a := env.Answer{Name: name, Late: late, Apply: func(t *env.Transport, rx *ref.Rx) {
+			if rx == nil || rx.Msg == nil {
+				return
+			}
+			var body []byte
+			if rx.Msg.NetFn == 0x2c && len(rx.Msg.Data) > 0 {
+				body = []byte{rx.Msg.Data[0]}
+			}
+			t.Enqueue(t.BMC.Respond(rx, 0xD4, body), fmt.Sprintf("refused:%d", len(t.Log)-1))
+			if dup {
+				t.Enqueue(t.BMC.Respond(rx, 0xD4, body), fmt.Sprintf("refused-dup:%d", len(t.Log)-1))
+			}
+		}}
+		return histAnswer{Answer: a, Class: clsFinal, Code: 0xD4}
+	}
 	return []histAnswer{
 		{Answer: honest, Class: clsFinal, Own: true},
+		refused("refused-d4-duplicated", false, true),
+		refused("refused-d4-late", true, false),
 		{Answer: env.LateReply(), Class: clsNothing},
 		{Answer: env.Duplicate(), Class: clsFinal, Own: true},
 		{Answer: env.Answer{Name: "held-until-after-next-reply", Apply: func(t *env.Transport, rx *ref.Rx) {
@@ -96,6 +117,15 @@ func c11Judge(cfg histCfg, o *histObs) []finding {
 		if !r.ErrNil || op.Close {
 			continue
 		}
+		ownRefused := false
+		for _, a := range r.Answers {
+			if strings.HasPrefix(a, "refused-") {
+				ownRefused = true // this command itself was refused: its result is that refusal
+			}
+		}
+		if ownRefused {
+			continue
+		}
 		v := base.Results[pos]
 		if r.Code != v.Code || r.Rsp != v.Rsp {
 			var hist []string
@@ -122,7 +152,7 @@ func c11Cause(o *histObs, pos int) string {
 
 func runC11(r *rep.R) {
 	r.SetRule("a case is one execution of a history [A, B, C] of pairwise distinct commands (all ordered pairs A,B over an 8-command alphabet, C fixed per pair) outside and inside a session, with <= k socket events from {reply delayed past the timeout, reply duplicated, reply held until after the next reply (reordering), a stray valid reply of another command ahead of the real one, reply lost}; oracle: every nil-error result equals the BMC's answer to that command (taken from an undisturbed run of the same history)")
-	alphabet := []int{opGetDeviceID, opChassisStatus, opGetSDR, opSetPriv, opPowerReading, opSensorReading, opSystemGUID, opAuthCaps}
+	alphabet := []int{opGetDeviceID, opChassisStatus, opGetSDR, opSetPriv, opPowerReading, opSensorReading, opSystemGUID, opAuthCaps, opDCMISensorInfoCmd, opDCMICapsCmd, opChassisControl}
 	var idx int64
 	k := 2
 	for _, inSess := range []bool{false, true} {
